@@ -135,7 +135,9 @@ static void seq_line(char *line)
 		if (!p) { printf("fetch NULL"); state(); return; }
 		fetched = 1;
 		printf("fetch %ld %u ", (long)((char *)p - data_base()), (unsigned)nb);
-		for (uint32_t i = 0; i < nb; i++) printf("%02x", p[i]);
+		/* a garbage header must not make the driver itself read outside the data area */
+		if ((char *)p < data_base() || (size_t)((char *)p - data_base()) + nb > (size_t)rb->n_cacheline * MUGGLE_CACHE_LINE_SIZE) printf("oob");
+		else for (uint32_t i = 0; i < nb; i++) printf("%02x", p[i]);
 		state();
 	} else if (strcmp(op, "rmove") == 0) {
 		if (!fetched) { printf("rmove skip"); state(); return; }
@@ -247,7 +249,7 @@ static void conc_run(void)
 	vs_spawn(reader_thread, NULL);
 	for (int i = 0; i < nwriters; i++) vs_spawn(writer_thread, &wscr[i]);
 	int st = vs_run();
-	printf("F sent=%ld dropped=%ld got=%ld bad=%ld w=%u r=%u\n", sent_count, drop_count, got_count, got_bad,
+	printf("F got=%ld bad=%ld w=%u r=%u\n", got_count, got_bad,
 		   (unsigned)rb->write_cursor, (unsigned)rb->read_cursor);
 	if (st != 0) {
 		printf("END\n");
